@@ -103,10 +103,15 @@ def _b2_one(c):
 
 def _b3_one(job):
     from gnpy.tools.json_io import load_equipments_and_configs, load_json
-    topo_file, eq_file, rounds = job
-    name = f'{topo_file.parent.name}/{topo_file.name}'
-    return lifecycle(name, load_json(topo_file), load_equipments_and_configs(eq_file, [], []), rounds=rounds,
-                     sig_prefix=f'B3|{name}')
+    topo_file, eq_file, rounds, sim = job
+    name = f'{topo_file.parent.name}/{topo_file.name}' + ('@raman-flag-on' if sim else '')
+    try:
+        if sim:                     # the whole life cycle under a non-default simulation-parameter setting
+            du.set_sim(sim)
+        return lifecycle(name, load_json(topo_file), load_equipments_and_configs(eq_file, [], []), rounds=rounds,
+                         sig_prefix=f'B3|{name}')
+    finally:
+        du.reset_sim()
 
 
 def settings_l8(c):
@@ -227,10 +232,18 @@ def run(chk):
         [p for p in c08.SHIPPED_QUICK if p[0].name not in ('Sweden_OpenROADMv5_example_network.json',
                                                            'testTopology_expected.json',
                                                            'perdegreemeshTopologyExampleV2_auto_design_expected.json')]
-    jobs = [(a, b, ROUNDS if 'CORONET_Global' not in a.name else 2) for a, b in pairs]
+    jobs = [(a, b, ROUNDS if 'CORONET_Global' not in a.name else 2, None) for a, b in pairs]
+    # "every simulation-parameter setting in force when design is invoked": with the Raman flag on the design estimates
+    # the SRS tilt of every span; the multiband example (thorough: and the mesh) goes through the life cycle like that
+    flag_on = next(s_ for s_ in sorted(sims, key=lambda x: json.dumps(x, sort_keys=True))
+                   if s_['flag'] and s_['method'] == 'perturbative' and s_['order'] == 2 and s_['solverRes'] == 2000
+                   and s_['nli'] == 'gn_model_analytic' and s_['ncc'] == NONE)
+    jobs.append((EX / 'multiband_example_network.json', EX / 'eqpt_config_multiband.json', ROUNDS, flag_on))
+    if tier == 'thorough':
+        jobs.append((EX / 'meshTopologyExampleV2.json', EX / 'eqpt_config.json', ROUNDS, flag_on))
     t3 = []
-    for (a, _, _), (tr, viol) in zip(jobs, du.parallel_map(_b3_one, jobs)):
-        chk.case(f'B3:{a.parent.name}/{a.name}', nontrivial=tr is not None)
+    for (a, _, _, sim_), (tr, viol) in zip(jobs, du.parallel_map(_b3_one, jobs)):
+        chk.case(f'B3:{a.parent.name}/{a.name}' + ('@raman-flag-on' if sim_ else ''), nontrivial=tr is not None)
         if viol:
             chk.violation(*viol)
         if tr is not None:
